@@ -71,6 +71,7 @@ const MAX_BACKOFF_S: i64 = 10;
 const SLACK_S: i64 = 1;
 const IFACE_IP: [u8; 4] = [10, 0, 0, 1];
 const OTHER_IP: [u8; 4] = [10, 0, 0, 99];
+const ALT_IP: [u8; 4] = [10, 0, 0, 60];
 const GATEWAY_IP: [u8; 4] = [10, 0, 0, 254];
 const IFACE_MAC: [u8; 6] = [2, 0, 0, 0, 0, 1];
 /// one datagram must be able to carry the > 2 KiB responses of alphabet group g8
@@ -291,6 +292,10 @@ fn alphabet(ci: &CfgInner, qi: usize) -> (Vec<RSpec>, BTreeMap<String, usize>) {
         add("mini", base, &mut v);
         add("mini", RSpec { txid: Sel::Other, ..base }, &mut v);
         add("mini", RSpec { src: Src::Other, ..base }, &mut v);
+        if ci.label.contains("update-servers") {
+            // (only there: on Ethernet every further on-link source multiplies the ARP states)
+            add("mini", RSpec { src: Src::Alt, ..base }, &mut v);
+        }
         add("mini", RSpec { ans: Ans::Cname1In, ..base }, &mut v);
         add("mini", RSpec { ans: Ans::AFor(Nm::V), ..base }, &mut v);
         add("mini", RSpec { hdr: Hdr::NxDomain, ..base }, &mut v);
@@ -473,6 +478,9 @@ fn configs(tier: Tier) -> Vec<(DnsCfg, usize)> {
         if ns > 1 {
             v.push((make_cfg_full("2q-staggered-A+A-1srv/mini", 1, &[a, ("de.c", T_A)], Alpha::Mini, Net::Ip, true), 8));
         }
+        // the application replaces the server list (update_servers) under the pending query, up to
+        // twice per history
+        v.push((make_cfg_full("1q-update-servers-A/mini", ns, &[a], Alpha::Mini, Net::Ip, false), 8));
         // one poll per history comes 1 s or 3 s AFTER poll_at (a late poll may delay, never shorten,
         // a server's window); the mDNS walk (IPv6 group, then IPv4 group) is a two-server walk in
         // the default build too
@@ -487,6 +495,8 @@ fn configs(tier: Tier) -> Vec<(DnsCfg, usize)> {
         v.push((make_cfg_full("2q-staggered-A+A/mini", ns, &[a, ("de.c", T_A)], Alpha::Mini, Net::Ip, true), 48));
         v.push((make_cfg_full("2q-staggered-A+A/reduced", ns, &[a, ("de.c", T_A)], Alpha::Reduced, Net::Ip, true), 5));
         v.push((make_cfg_full("1q-idle-gap-A/mini", ns, &[a], Alpha::Mini, Net::Ip, true), 48));
+        v.push((make_cfg_full("1q-update-servers-A/mini", ns, &[a], Alpha::Mini, Net::Ip, false), 48));
+        v.push((make_cfg_full("2q-update-servers-A+A/mini", ns, &[a, ("de.c", T_A)], Alpha::Mini, Net::Ip, false), 48));
         v.push((make_cfg_full("1q-late-poll-x2-A/mini", ns, &[a], Alpha::Mini, Net::Ip, false), 48));
         v.push((make_cfg_full("1q-mdns-late-poll-x2-A/mini", ns, &[("ab.local", T_A)], Alpha::Mini, Net::Ip, false), 48));
         v.push((make_cfg_full("2q-late-poll-A+A/mini", ns, &[a, ("de.c", T_A)], Alpha::Mini, Net::Ip, false), 48));
@@ -536,6 +546,9 @@ pub enum Ev {
     Tick,
     /// a LATE poll: the clock moves this many ms beyond Interface::poll_at before the poll
     TickLate(u32),
+    /// the application calls dns::Socket::update_servers (0 = empty list, 1 = the first server only,
+    /// 2 = the same list again, 3 = a list with one different server), then polls
+    UpdateServers(u8),
     /// no more responses: tick until every query has a result (terminal)
     RunOut,
     /// deliver a response built from query n's data as seen on the wire
@@ -584,6 +597,8 @@ struct QModel {
     /// make anything happen earlier
     late_q: i64,
     late_srv: i64,
+    /// union of the server lists in effect whenever a datagram of this query was sent
+    srv_seen: BTreeSet<[u8; 4]>,
     /// evidence only (not part of the fingerprint)
     txlog: Vec<(i64, String)>,
 }
@@ -621,6 +636,10 @@ pub struct DnsH {
     /// late polls still allowed in this history / lateness of the poll being executed
     late_left: u8,
     poll_late: i64,
+    /// server list currently installed in the socket / update_servers calls still allowed / made
+    servers_now: Vec<[u8; 4]>,
+    updates_left: u8,
+    updates_done: u8,
 }
 
 // transition classes (evidence)
@@ -731,6 +750,7 @@ impl DnsH {
         let src = match spec.src {
             Src::Srv(i) => ci.servers[i as usize],
             Src::Other => OTHER_IP,
+            Src::Alt => ALT_IP,
         };
         let sport = match spec.sport {
             SPort::Dns53 => 53,
@@ -747,6 +767,12 @@ impl DnsH {
         // never while the server's 10 s window runs from the first ATTEMPT (dns.rs dispatch arms
         // timeout_at before emit), so only the termination and matching clauses apply there.
         if sig.starts_with("timing/") && self.ci().net != Net::Ip {
+            return;
+        }
+        // update_servers() replaces the list under the pending queries while their server index and
+        // timers stay: the per-server walk the timing clauses describe no longer exists (the same
+        // index can mean another address mid-window). Termination, matching and no-panic still apply.
+        if sig.starts_with("timing/") && self.updates_done > 0 {
             return;
         }
         out.push(Viol::new(format!("C19/{}", sig), detail));
@@ -892,7 +918,9 @@ impl DnsH {
         if question.is_none() {
             self.observe("malformed_question_emitted_on_wire", || format!("question bytes {}", hex(&qraw)));
         }
+        let servers_now = self.servers_now.clone();
         let m = &mut self.qs[k];
+        m.srv_seen.extend(servers_now);
         let w = (txid, question);
         if !m.wire.contains(&w) {
             m.wire.push(w);
@@ -1014,7 +1042,10 @@ impl DnsH {
     /// Err(cause).
     fn matches(&self, k: usize, msg: &Msg, view: &Option<RView>) -> Result<Name, &'static str> {
         let q = &self.qs[k];
-        let from_server = msg.sport == 53 && self.ci().servers.contains(&msg.src);
+        // update_servers(): LENIENT reading - the source is a configured server if it is in the
+        // CURRENT list or was in the list in effect when some datagram of this query was sent
+        // (smoltcp itself checks the current list only, which is stricter)
+        let from_server = msg.sport == 53 && (self.servers_now.contains(&msg.src) || q.srv_seen.contains(&msg.src));
         // mDNS: lenient, any address (statement: "or from the mDNS port")
         if !(from_server || msg.sport == 5353) {
             return Err("source-not-port-53-of-configured-server-nor-mdns-port");
@@ -1237,6 +1268,23 @@ impl DnsH {
         (n_ok, n_fail)
     }
 
+    /// On the unimpaired link the first datagram of a query leaves in the poll that follows
+    /// start_query (smoltcp's behaviour, hence a verdict): a pending query without any datagram on
+    /// the wire after that poll is being starved.
+    fn check_transmitted(&mut self, k: usize, out: &mut Vec<Viol>) {
+        if self.ci().net == Net::Ip && self.qs[k].status == Status::Pending && self.qs[k].txlog.is_empty() && !self.dead {
+            let d = format!(
+                "query {} ({}) started at t={} us is pending but the poll that followed start_query put no datagram for it on the wire (poll_at now {:?}; state: {})",
+                k,
+                show(&self.qs[k].orig),
+                self.qs[k].started,
+                self.next_poll,
+                self.qs.iter().map(|q| format!("{:?}/{} datagrams", q.status, q.txlog.len())).collect::<Vec<_>>().join(", ")
+            );
+            self.fail(out, "termination/query-not-transmitted-by-the-poll-after-start_query", d);
+        }
+    }
+
     fn any_pending(&self) -> bool {
         self.qs.iter().any(|q| q.status == Status::Pending)
     }
@@ -1414,6 +1462,7 @@ impl Harness for DnsH {
                 sched: vec![],
                 late_q: 0,
                 late_srv: 0,
+                srv_seen: BTreeSet::new(),
                 txlog: vec![],
             });
         }
@@ -1438,6 +1487,9 @@ impl Harness for DnsH {
             n_arp: 0,
             late_left: ci.late_budget,
             poll_late: 0,
+            servers_now: ci.servers.clone(),
+            updates_left: if ci.label.contains("update-servers") { 2 } else { 0 },
+            updates_done: 0,
         };
         let mut out = vec![];
         me.settle(&mut out, "initial poll");
@@ -1447,10 +1499,12 @@ impl Harness for DnsH {
             // violations in the initial state are attached to the first event applied
             me.notes.push(format!("{} :: {}", v.sig, v.detail));
         }
-        for (k, q) in me.qs.iter().enumerate() {
-            if q.wire.is_empty() && q.status == Status::Pending && ci.net == Net::Ip {
-                globals().mach.lock().unwrap().push(format!("[{}] query {} was not transmitted by the initial poll", ci.label, k));
-            }
+        let mut out2 = vec![];
+        for k in 0..me.qs.len() {
+            me.check_transmitted(k, &mut out2);
+        }
+        for v in out2 {
+            me.notes.push(format!("{} :: {}", v.sig, v.detail));
         }
         if me.qs.len() == 2 && me.qs[0].port == me.qs[1].port && me.qs[0].port != 0 {
             globals().mach.lock().unwrap().push(format!("[{}] both queries drew the same source port; change the seed", ci.label));
@@ -1473,6 +1527,11 @@ impl Harness for DnsH {
                 }
             }
             v.push((Ev::RunOut, 1));
+        }
+        if self.updates_left > 0 && self.any_pending() {
+            for code in 0..4u8 {
+                v.push((Ev::UpdateServers(code), 1));
+            }
         }
         if unstarted {
             // an idle gap is only possible while no poll is due before its end (time passes without
@@ -1570,6 +1629,34 @@ impl Harness for DnsH {
                 }
                 C_LINK
             }
+            Ev::UpdateServers(code) => {
+                let ci = self.cfg.clone();
+                let list: Vec<[u8; 4]> = match code {
+                    0 => vec![],
+                    1 => ci.0.servers[..1].to_vec(),
+                    2 => ci.0.servers.clone(),
+                    _ => vec![ALT_IP],
+                };
+                let addrs: Vec<IpAddress> = list.iter().map(|s| IpAddress::v4(s[0], s[1], s[2], s[3])).collect();
+                self.updates_left = self.updates_left.saturating_sub(1);
+                self.updates_done += 1;
+                let sock = self.sockets.get_mut::<dns::Socket>(self.h);
+                match catch_unwind(AssertUnwindSafe(|| sock.update_servers(&addrs))) {
+                    Ok(()) => {
+                        self.servers_now = list;
+                        // the application polls after the API call
+                        if self.settle(out, "poll after update_servers").is_some() {
+                            self.check_results(None, out);
+                        }
+                    }
+                    Err(e) => {
+                        self.dead = true;
+                        let m = panic_msg(e);
+                        self.fail(out, &format!("panic/{}", panic_site()), format!("panic in update_servers({:?}): {} at {}", addrs, m, last_panic_loc()));
+                    }
+                }
+                C_LINK
+            }
             Ev::StartNext(gap_ms) => {
                 self.now += *gap_ms as i64 * 1000;
                 if let Some(k) = self.qs.iter().position(|q| q.status == Status::NotStarted) {
@@ -1587,6 +1674,7 @@ impl Harness for DnsH {
                     // the application polls after the API call (the usual smoltcp loop)
                     if self.settle(out, "poll after start_query").is_some() {
                         self.check_results(None, out);
+                        self.check_transmitted(k, out);
                     }
                 }
                 C_LINK
@@ -1645,7 +1733,7 @@ impl Harness for DnsH {
         }
         {
             use std::fmt::Write;
-            let _ = write!(model, "arp={:?}/{:?} blocked={}/{} late_left={} late={:?}", self.arp_asked, self.arp_answered, self.blocked, self.was_blocked, self.late_left, self.qs.iter().map(|q| (q.late_q, q.late_srv)).collect::<Vec<_>>());
+            let _ = write!(model, "arp={:?}/{:?} blocked={}/{} late_left={} late={:?} srv={:?}/{}/{} seen={:?}", self.arp_asked, self.arp_answered, self.blocked, self.was_blocked, self.late_left, self.qs.iter().map(|q| (q.late_q, q.late_srv)).collect::<Vec<_>>(), self.servers_now, self.updates_left, self.updates_done, self.qs.iter().map(|q| q.srv_seen.clone()).collect::<Vec<_>>());
         }
         let fp = fp128(&(socks.as_str(), dig.as_str(), self.now, self.next_poll, model.as_str(), self.dead));
         globals().outcomes.put(fp, self.outcome_label(&socks));
@@ -1664,6 +1752,7 @@ impl Harness for DnsH {
 fn describe_event(h: &DnsH, ev: &Ev) -> String {
     match ev {
         Ev::Tick => format!("Tick -> poll at {:?} us", h.next_poll),
+        Ev::UpdateServers(code) => format!("update_servers({}), then poll", ["[] (empty)", "[first server]", "[same list]", "[10.0.0.60]"][(*code).min(3) as usize]),
         Ev::TickLate(ms) => format!("TickLate -> poll {} ms AFTER poll_at = {:?} us", ms, h.next_poll),
         Ev::RunOut => "RunOut (tick until all queries are done)".into(),
         Ev::ArpReply(ip) => format!("ArpReply {} is-at {}", ipstr(ip), hex(&mac_of(*ip))),
